@@ -158,7 +158,7 @@ def gen_file(rng, mname, mode):
             k = rng.randrange(1, len(l))
             c = rng.random()
             if c < 0.35:
-                l[k] = rng.choice(["f(v1, v2)", "[v1,v2]", "(v1, (v2, v3))"])
+                l[k] = rng.choice(["f(v1, v2)", "[v1,v2]", "(v1, (v2, v3))", "{v1, v2}", "{v1}", "f({v1, v2})"])  # braces are ordinary characters
             elif c < 0.6:
                 l = l[: rng.randrange(1, len(l))]  # shorter than the filter may be
             elif c < 0.75:
@@ -551,6 +551,89 @@ def fl_job(_):
     return part
 
 
+def third_party_stream(res):
+    """the enforcer's own guard with filtered adapters that are NOT the bundled file adapter: an adapter implementing the
+    FilteredAdapter interface and a duck-typed one (both in memory, their own save_policy does not refuse).  While the
+    loaded policy is a filtered subset Enforcer.is_filtered() is True and Enforcer.save_policy() refuses and leaves the
+    store alone; a full load ends that state."""
+    casbin = common.use_repo()
+    from casbin import persist
+    from casbin.persist.adapter_filtered import FilteredAdapter as FilteredInterface
+
+    class Table:
+        def __init__(self, rows):
+            self.rows = [list(r) for r in rows]
+            self.filtered = False
+            self.saves = 0
+
+        def _load(self, model, keep):
+            for r in self.rows:
+                if keep(r) and r[0][0] in model.model and r[0] in model.model[r[0][0]]:
+                    model.model[r[0][0]][r[0]].policy.append(list(r[1:]))
+
+        def load_policy(self, model):
+            self._load(model, lambda r: True)
+            self.filtered = False
+
+        def load_filtered_policy(self, model, filter):
+            self._load(model, lambda r: r[1] == filter)
+            self.filtered = True
+
+        def is_filtered(self):
+            return self.filtered
+
+        def save_policy(self, model):
+            self.saves += 1
+            self.rows = [[k] + list(r) for sec in ("p", "g") if sec in model.model for k, a in model.model[sec].items() for r in a.policy]
+            return True
+
+        def add_policy(self, sec, ptype, rule):
+            pass
+
+        def remove_policy(self, sec, ptype, rule):
+            pass
+
+        def remove_filtered_policy(self, sec, ptype, field_index, *field_values):
+            pass
+
+    kinds = {"interface": type("IfaceTable", (Table, FilteredInterface), {}), "duck-typed": type("DuckTable", (Table, persist.Adapter), {})}
+    rows = [["p", "v1", "v1", "v1"], ["p", "v2", "v2", "v2"], ["p", "v1", "v3", "v3"]]
+    for kname, cls in kinds.items():
+        for hist in (["loadf", "save"], ["loadf", "save", "load", "save"], ["load", "save", "loadf", "save", "save"], ["loadf", "loadf", "save"]):
+            ad = cls(rows)
+            e = casbin.Enforcer(casbin.Enforcer.new_model(text=MODELS["nog"]), ad)
+            subset = not ad.is_filtered() and False
+            done = []
+            for op in hist:
+                done.append(op)
+                res.evaluations += 1
+                res.count("third-party:" + op)
+                before = [list(r) for r in ad.rows]
+                bad = None
+                try:
+                    if op == "loadf":
+                        e.load_filtered_policy("v1")
+                        subset = True
+                    elif op == "load":
+                        e.load_policy()
+                        subset = False
+                    else:
+                        e.save_policy()
+                        if subset:
+                            bad = f"save_policy was allowed while the enforcer holds the filtered subset {e.get_policy()}; the store went from {before} to {ad.rows}"
+                except RuntimeError as ex:
+                    if op == "save" and not subset:
+                        bad = f"save_policy was refused ({ex}) although the policy is a complete one"
+                    elif op == "save" and ad.rows != before:
+                        bad = f"save_policy refused but changed the store to {ad.rows}"
+                if bad is None and bool(e.is_filtered()) != subset:
+                    bad = f"is_filtered() answers {e.is_filtered()} while the loaded policy is {'a filtered subset' if subset else 'complete'}"
+                if bad:
+                    res.violation({"signature": f"third-party:{kname}:{op}", "stream": "third-party", "kind_of_case": "third-party", "what": f"{kname} filtered adapter, history {done}: {bad}",
+                                   "adapter": kname, "history": done, "expected": "refused while filtered / allowed after a full load", "observed": bad})
+                    break
+
+
 def load_corpus():
     """corpus/C12/*.json: minimised past witnesses (replay format: model_name, file, ops); always run first"""
     import glob
@@ -580,6 +663,7 @@ def run(ctx):
 def _stage(ctx, res, nin, nout, nraise):
     rng = ctx["rng"]
     pc.merge(res, [fl_job(None)])
+    third_party_stream(res)
     nw = pc.NPROC
     corpus = load_corpus()
     jobs = [(corpus, len(corpus), "corpus")] if corpus else []
@@ -593,13 +677,17 @@ def _stage(ctx, res, nin, nout, nraise):
         f"filter_line on {len(FL_LINES)} lines x every filter over {FVALS}^<=3 x ^<=3 (exhaustive); {nin} generated plain policy files, {nout} hard ones "
         f"(bracketed / leading commas before filtered positions, filters longer than the rule, padded values) and {nraise} with raising lines, each with a random sequence (<= 4) of load_filtered_policy / load_increment_filtered_policy / load_policy / "
         "save_policy / adapter.save_policy (a quarter of the histories with a window in which the policy file is missing) on Enforcer+FilteredFileAdapter over real temp files (models rbac2, dom, nog); after every step policy of every type, is_filtered, "
-        "links (get_roles), result and file text are compared, and after every successful load all 27 requests over the names are decided by enforce() and by a fresh enforcer holding exactly the specified subset; non-trivial = a load leaving rules in memory / a refused save"
+        "links (get_roles), result and file text are compared; the enforcer's own save guard with two in-memory filtered adapters that are not the bundled one (interface-based, duck-typed), and after every successful load all 27 requests over the names are decided by enforce() and by a fresh enforcer holding exactly the specified subset; non-trivial = a load leaving rules in memory / a refused save"
     )
 
 
 def replay(obj):
     casbin = common.use_repo()
     k = obj.get("kind_of_case")
+    if k == "third-party":
+        r = common.Result()
+        third_party_stream(r)
+        return any(v["signature"] == obj["signature"] for v in r.spec_violations)
     if k == "filter_line":
         from casbin.persist.adapters.filtered_file_adapter import filter_line
 
